@@ -84,9 +84,11 @@ class ThreadedVNCClientProxy:
         def threaded_call(
             protocol: VNCDoToolClient, *args: Any, **kwargs: Any
         ) -> Deferred:
-            def result_callback(result: V) -> V:
+            def result_callback(result: V) -> VNCDoToolClient:
                 self.queue.put(result)
-                return result
+                # keep the protocol as the chain's value for the next call,
+                # whatever this call returned or raised
+                return protocol
 
             d = maybeDeferred(method, protocol, *args, **kwargs)
             d.addBoth(result_callback)
